@@ -8,8 +8,9 @@ and continued learning diverges.  Such snapshots must be detached (or taken unde
 from __future__ import annotations
 
 import ast
-from typing import List
+from typing import List, Optional
 
+from ..cfg import CFG, Node
 from ..core import Fn, Repo, call_name, dotted, last_attr, short, walk_no_nested
 from ..registry import ALGOS, extract
 from ..report import Check
@@ -18,12 +19,32 @@ _INT_VALUED = {"numel", "size", "dim", "nelement", "item"}
 _DETACHERS = {"detach", "detach_", "clone_detached", "numpy", "tolist", "item"}
 
 
-def _built_from_parameters(v: ast.AST) -> bool:
-    """Does the value contain an iteration over <something>.parameters() whose element expression is tensor valued?"""
+def _is_parameter_collection(cfg: Optional[CFG], at: Optional[Node], it: ast.AST, depth: int = 0) -> bool:
+    """Is the iterable <something>.parameters() / .named_parameters(), or a local collection of such parameters: a temporary bound to a
+    list() / tuple() copy of one, or to a comprehension over one whose elements are tensors (`[w for w in net.parameters() if w.requires_grad]`)?
+    Locals are followed through their reaching definitions (every definition that reaches must qualify)."""
+    if isinstance(it, ast.Call) and last_attr(it) in ("parameters", "named_parameters"):
+        return True
+    if depth > 5:
+        return False
+    if isinstance(it, ast.Call) and isinstance(it.func, ast.Name) and it.func.id in ("list", "tuple", "sorted", "reversed") and len(it.args) == 1:
+        return _is_parameter_collection(cfg, at, it.args[0], depth + 1)
+    if isinstance(it, (ast.ListComp, ast.GeneratorExp, ast.SetComp)):
+        return _built_from_parameters(it, cfg, at, depth + 1)
+    if isinstance(it, ast.Name) and cfg is not None and at is not None:
+        defs = cfg.defs_reaching(at, it.id)
+        vals = [(d, cfg.value_of_def(d, it.id)) for d in defs]
+        return bool(vals) and all(v is not None and _is_parameter_collection(cfg, d, v, depth + 1) for d, v in vals)
+    return False
+
+
+def _built_from_parameters(v: ast.AST, cfg: Optional[CFG] = None, at: Optional[Node] = None, depth: int = 0) -> bool:
+    """Does the value contain an iteration over <something>.parameters() — directly or through a local collection of those parameters — whose
+    element expression is tensor valued?"""
     for x in ast.walk(v):
         if isinstance(x, (ast.ListComp, ast.GeneratorExp, ast.SetComp)):
             for g in x.generators:
-                if isinstance(g.iter, ast.Call) and last_attr(g.iter) in ("parameters", "named_parameters"):
+                if _is_parameter_collection(cfg, at, g.iter, depth):
                     elt = x.elt
                     if isinstance(elt, ast.Call) and last_attr(elt) in _INT_VALUED:
                         continue
@@ -61,11 +82,16 @@ def autograd_free_snapshots(ck: Check, repo: Repo, filtered) -> None:
     for modname, cname in ALGOS:
         reg = extract(repo, modname, cname)
         for m in reg.cls.methods.values():
+            cfg: Optional[CFG] = None
             for a in walk_no_nested(m.node):
                 if not (isinstance(a, ast.Assign) and len(a.targets) == 1 and isinstance(a.targets[0], ast.Attribute) and dotted(a.targets[0].value) == "self"):
                     continue
                 attr = a.targets[0].attr
-                if filtered(attr) or not _built_from_parameters(a.value):
+                if filtered(attr):
+                    continue
+                if cfg is None:
+                    cfg = CFG(m.node)
+                if not _built_from_parameters(a.value, cfg, cfg.node_of(a)):
                     continue
                 n += 1
                 ok = _detached(a.value) or _under_no_grad(m, a)
